@@ -94,7 +94,7 @@ def check_tree(prop, tier, seed, work, ops, props_in_model):
         # (TreeLaws.tla Match / QueryLaws); disagreements are drift notes, not violations of C10
         two = dict(vals=q(["v1", "v2"]), keys=q(["K1", "K2"]), mkeys="")
         for name, consts in (("A", dict(two, enabled="EnabledA")), ("M", dict(two, enabled="EnabledM", mkeys=q(["K1.K1", "K1.K2", "K2.K1"])))):
-            t = vf.run_tlc(work, "MC_TreeLaws", LAWS_CFG % consts + "INVARIANT QueryLaws\nCONSTRAINT EmitTreeQ\n", tag="query" + name, timeout=1200)
+            t = vf.run_tlc(work, "MC_TreeLaws", LAWS_CFG % consts + "INVARIANT QueryLaws\nCONSTRAINT EmitTreeQ\n", tag="query" + name, timeout=3000)
             states += t["distinct"]; trans += t["states"]
             r = run_replay(bindir, h, "trees", ["-in", t["out"], "-modes", "query", "-seed", str(seed), "-prop", "C10", "-pkgs", ",".join(cfgs)] + (["-limit", "4"] if tier == "quick" else []), work, "query" + name)
             results.append(r)
@@ -104,7 +104,7 @@ def check_tree(prop, tier, seed, work, ops, props_in_model):
         # extension: GetOrCreateNode as an action of the TreeMachine (GOCLaws), replayed like the others
         for name, consts in (("A", dict(two, enabled="EnabledA")), ("B", dict(two, enabled="EnabledB"))):
             t = vf.run_tlc(work, "MC_TreeA", TREE_CFG % consts + "CONSTANT\n  WithGOC <- MCWithGOC\n" +
-                           "INVARIANT TypeOK\nPROPERTY GOCLaws\nACTION_CONSTRAINT Emit\n", tag="goc" + name, timeout=1200)
+                           "INVARIANT TypeOK\nPROPERTY GOCLaws\nACTION_CONSTRAINT Emit\n", tag="goc" + name, timeout=3000)
             states += t["distinct"]; trans += t["states"]
             r = run_replay(bindir, h, "tree", ["-in", t["out"], "-ops", "goc", "-seed", str(seed), "-prop", "C10", "-pkgs", ",".join(cfgs), "-walks", "0"] + (["-limit", "3"] if tier == "quick" else []), work, "goc" + name)
             results.append(r)
@@ -152,7 +152,7 @@ def check_gnmiset(prop, tier, seed, work, modes, model_props):
         consts = dict(consts, maxops=1, maxdoc=2)
         base = GNMI_CFG % consts
         mc = vf.run_tlc(work, "MC_GnmiSet", base + "INVARIANT TypeOK\n" + "".join("PROPERTY %s\n" % p for p in model_props)
-                        + "ACTION_CONSTRAINT Emit\n", tag="mc" + name, timeout=900)
+                        + "ACTION_CONSTRAINT Emit\n", tag="mc" + name, timeout=3000)
         em = mc
         states += mc["distinct"]
         trans += mc["states"]
@@ -170,7 +170,7 @@ def check_gnmiset(prop, tier, seed, work, modes, model_props):
             simcfg = "\n".join(l for l in simcfg.splitlines() if not l.startswith("VIEW")) + "\n"
             num = 150 if tier == "quick" else 1500
             sm = vf.run_tlc(work, "MC_GnmiSet", simcfg + "INVARIANT TypeOK\nPROPERTY SetSemantics\nACTION_CONSTRAINT Emit\n",
-                            tag="sim" + name, workers=1, timeout=900, simulate="num=%d" % num, extra=("-depth", "40", "-seed", str(seed)))
+                            tag="sim" + name, workers=1, timeout=3000, simulate="num=%d" % num, extra=("-depth", "40", "-seed", str(seed)))
             sargs = ["-in", sm["out"], "-modes", modes, "-seed", str(seed), "-prop", prop, "-pkgs", ",".join(cfgs)]
             if tier == "quick":
                 sargs += ["-limit", "4"]
@@ -257,7 +257,7 @@ def check_pairs(prop, tier, seed, work, modes, invariants, also=()):
     results = []
     for name, consts in slices:
         mc = vf.run_tlc(work, "MC_PairLaws", PAIR_CFG % consts + "".join("INVARIANT %s\n" % p for p in invariants)
-                        + "CONSTRAINT EmitPair\n", tag="pairs" + name, timeout=1200)
+                        + "CONSTRAINT EmitPair\n", tag="pairs" + name, timeout=3000)
         states += mc["distinct"]
         trans += mc["states"]
         args = ["-in", mc["out"], "-modes", modes, "-seed", str(seed), "-prop", prop, "-pkgs", ",".join(cfgs)]
@@ -375,7 +375,7 @@ def check_helpers(prop, tier, seed, work, kind):
     rejections = []
     ntr = nev = 0
     for name, keys in (("single", ["K1", "K2", "K3"]), ("multi", ["K1.K1", "K1.K2", "K2.K1"])):
-        mc = vf.run_tlc(work, module, HELPER_CFG % dict(keys=q(keys), extra=extra), tag="mc" + name, workers=1, timeout=900)
+        mc = vf.run_tlc(work, module, HELPER_CFG % dict(keys=q(keys), extra=extra), tag="mc" + name, workers=1, timeout=3000)
         states += mc["distinct"]
         trans += mc["states"]
         rec = os.path.join(work, "trace-%s.ndjson" % name)
@@ -441,7 +441,7 @@ def check_pathstr(tier, seed, work):
     alphabet); TLC checks that the documented grammar round-trips; each path goes through the
     real PathToString / StringToStructuredPath / string-slice functions."""
     h, bindir = vf.prepare(work, ["us"])
-    mc = vf.run_tlc(work, "MC_PathStr", PATHSTR_CFG % (3 if tier == "quick" else 4), tag="pathstr", timeout=1500)
+    mc = vf.run_tlc(work, "MC_PathStr", PATHSTR_CFG % (3 if tier == "quick" else 4), tag="pathstr", timeout=3000)
     r = run_replay(bindir, h, "pathstr", ["-in", mc["out"], "-prop", "C08"], work, "pathstr")
     if r["evaluated"] == 0:
         raise Infra("pathstr replay evaluated nothing")
@@ -532,8 +532,8 @@ def check_restrict(tier, seed, work):
     Validate*Restrictions functions for every base type."""
     h, bindir = vf.prepare(work, ["us"])
     parts = 2 if tier == "quick" else 3
-    rr = vf.run_tlc(work, "Restrict", RESTRICT_CFG % dict(mode="range", parts=parts), tag="range", timeout=1800)
-    rp = vf.run_tlc(work, "Restrict", RESTRICT_CFG % dict(mode="pattern", parts=parts), tag="pattern", timeout=1800)
+    rr = vf.run_tlc(work, "Restrict", RESTRICT_CFG % dict(mode="range", parts=parts), tag="range", timeout=3000)
+    rp = vf.run_tlc(work, "Restrict", RESTRICT_CFG % dict(mode="pattern", parts=parts), tag="pattern", timeout=3000)
     r = run_replay(bindir, h, "restrict", ["-in", rr["out"] + "," + rp["out"], "-prop", "C06"], work, "restrict")
     if r["evaluated"] == 0:
         raise Infra("restrict replay evaluated nothing")
@@ -709,14 +709,14 @@ def check_c11(tier, seed, work):
         states += t["distinct"]; trans += t["states"]
         results.append(run_replay(bindir, h, "trees", ["-in", t["out"], "-modes", "c11,c01,c02", "-seed", str(seed), "-prop", "C11", "-pkgs", ",".join(cfgs)] + lim, work, "c11trees" + name))
     # pairs: Diff / MergeStructs
-    p = vf.run_tlc(work, "MC_PairLaws", PAIR_CFG % dict(two, enabled="EnabledP") + "CONSTRAINT EmitPair\n", tag="c11pairs", timeout=1200)
+    p = vf.run_tlc(work, "MC_PairLaws", PAIR_CFG % dict(two, enabled="EnabledP") + "CONSTRAINT EmitPair\n", tag="c11pairs", timeout=3000)
     states += p["distinct"]; trans += p["states"]
     results.append(run_replay(bindir, h, "pairs", ["-in", p["out"], "-modes", "c03,c05", "-seed", str(seed), "-prop", "C11", "-pkgs", ",".join(cfgs)] + (["-limit", "4"] if tier == "quick" else []), work, "c11pairs"))
     # SetNode / DeleteNode / GetNode and SetRequests: messages unchanged
     m = vf.run_tlc(work, "MC_TreeA", TREE_CFG % dict(two, enabled="EnabledA") + "ACTION_CONSTRAINT Emit\n", tag="c11tree")
     states += m["distinct"]; trans += m["states"]
     results.append(run_replay(bindir, h, "tree", ["-in", m["out"], "-ops", "set,setll,delete", "-seed", str(seed), "-prop", "C11", "-pkgs", ",".join(cfgs), "-limit", "3" if tier == "quick" else "1"], work, "c11tree"))
-    g = vf.run_tlc(work, "MC_GnmiSet", GNMI_CFG % dict(two, enabled="EnabledA", maxops=1, maxdoc=2) + "ACTION_CONSTRAINT Emit\n", tag="c11req", timeout=900)
+    g = vf.run_tlc(work, "MC_GnmiSet", GNMI_CFG % dict(two, enabled="EnabledA", maxops=1, maxdoc=2) + "ACTION_CONSTRAINT Emit\n", tag="c11req", timeout=3000)
     states += g["distinct"]; trans += g["states"]
     results.append(run_replay(bindir, h, "setreq", ["-in", g["out"], "-modes", "setreq", "-seed", str(seed), "-prop", "C11", "-pkgs", ",".join(cfgs), "-limit", "12" if tier == "quick" else "3"], work, "c11req"))
     # Validate
@@ -746,7 +746,7 @@ def check_c21(tier, seed, work):
     states = trans = 0
     out = {}
     for sc in ("readers", "writers", "cache"):
-        mc = vf.run_tlc(work, "Conc", CONC_CFG % dict(procs=q(procs if sc == "cache" else ["p1", "p2"]), sc=sc), tag="conc" + sc, workers=16, timeout=1500)
+        mc = vf.run_tlc(work, "Conc", CONC_CFG % dict(procs=q(procs if sc == "cache" else ["p1", "p2"]), sc=sc), tag="conc" + sc, workers=16, timeout=3000)
         states += mc["distinct"]; trans += mc["states"]
         out[sc] = mc["out"]
     res_path = os.path.join(work, "result-concur.json")
